@@ -11,10 +11,17 @@ def b(v):
 
 
 def s(text):
-    """a Python str as a packed literal: Base.Prelude.U 0x1<6 hex digits per code point>"""
+    """a Python str as a Coq string literal decoded by Base.Prelude.U (see there)"""
     if text == "":
         return "(@nil N)"
-    return "(U 0x1%s)" % "".join("%06X" % ord(c) for c in text)
+    out = []
+    for ch in text:
+        o = ord(ch)
+        if 0x20 <= o <= 0x7D and o != 0x22:
+            out.append(ch)
+        else:
+            out.append("~%06X" % o)
+    return '(U "%s"%%bs)' % "".join(out)
 
 
 def lst(items, ty=None):
